@@ -5,7 +5,7 @@ SetSeq(S) == LET RECURSIVE go(_) go(T) == IF T = {} THEN <<>> ELSE LET x == CHOO
 Emit == pc = "done" =>
   PrintT(<<"VEC", ToJson([
      fam |-> Family, pa |-> cfg.pa, ra |-> cfg.ra, stream |-> cfg.stream, tagmode |-> cfg.tagmode, withmd |-> cfg.withmd,
-     explicit |-> cfg.explicit, raw |-> cfg.raw,
+     explicit |-> cfg.explicit, raw |-> cfg.raw, shared |-> cfg.shared,
      pv |-> pv, rv |-> rv,
      allow |-> [ accept |-> DesignOK,
                  numbers |-> SetSeq(DesignNumbers),
